@@ -47,10 +47,18 @@ CLAIMED = {
    text="TLC explores every decoration history up to the bound (names repeated, bases in slotted or plain form, all flag pairs) and checks that decoration never raises, the module-global guard is empty between decorations and the slot formula holds (and that the pinned behaviour violates this). Emitted histories are executed against the real decorator at module and function-local scope under 7 dataclass flag sets; each event (outcome, __slots__, dict/weakref support, len(_stack), battery differences against the plain twin) is validated by TLC with the guard as a hidden variable.",
    ref="DESIGN.md section 4 C19",
    note="Trusted: TLC; the Python battery (construct/eq/order/hash/repr/copy/deepcopy/pickle 2-5/setattr/asdict/replace) whose equality TLC only asserts; bounded to histories of 3 (thorough 4) with <=2 own fields."),
+ "C03": dict(
+   engine="Wire",
+   technique="TLA+ specs Terms.tla (type universe, class table) + Wire.tla (structural conformance Conf with named clauses); TLC enumerates the universe, the harness feeds junk and corrupted wire forms to the real unmarshal, TLC trace spec Wire_Trace.tla judges every returned value with Conf",
+   level="model_checking",
+   text="TLC enumerates the bounded type universe (all leaves, every collection/mapping spelling, fixed tuples, unions, 15 synthesised classes of every flavour incl. recursive and same-named ones, wrapper chains) and emits each type; for each the real unmarshal is called on a junk pool and on every single-step corruption of real wire forms, and every returned value is checked by the TLA+ structural type checker Conf (runtime class at every position, arity, required keys, Literal/Enum membership), evaluated by TLC on the recorded events.",
+   ref="DESIGN.md section 4 C03",
+   note="Trusted: TLC; the projection of values to terms (harness/terms.py); Conf as the meaning of 'conforms'. Universe bounded to depth 2 with representative members; corruptions computed by the harness."),
 }
 NOT_BUILT = "check not built yet (build in progress; see DESIGN.md section 7 build order)"
 
 ENGINES = {
+ "Wire": dict(path="spec/Wire.tla", kind="TLA+ specs Terms.tla/Wire.tla/Wire_Trace.tla + TLC (universe enumeration, trace validation) + harness/valuestream.py, harness/typeterms.py, drivers c01 c03 c06 c13"),
  "Slotted": dict(path="spec/Slotted.tla", kind="TLA+ spec + TLC (exhaustive, history emission, trace validation) + harness/drivers/c19.py"),
  "Future": dict(path="spec/Future.tla", kind="TLA+ spec + TLC (exhaustive, case emission, trace validation) + harness/drivers/c20.py"),
  "Binding": dict(path="spec/Binding.tla", kind="TLA+ spec + TLC (exhaustive, table synthesis Binding_Synth.tla, case emission, trace validation) + harness/drivers/c10.py"),
